@@ -491,6 +491,15 @@ class CallMixin:
         for name, ty in c.params.items():
             if name not in argmap:
                 raise BindingError(f"contract {c.target}: parameter {name} not bound")
+        # arguments must have the kind the contract declares: a union argument (e.g. "time or None") is
+        # narrowed, the excluded alternatives become safety obligations (TypeError in the callee otherwise)
+        kinds = {sv.TTime: sv.STime, sv.TInt: sv.SInt, sv.TReal: sv.SReal, sv.TPay: sv.SPay, sv.TRef: sv.SRef,
+                 sv.TBool: sv.SBool, sv.TStr: sv.SStr, sv.TDelta: sv.SDelta}
+        argmap = dict(argmap)
+        for name, ty in c.params.items():
+            k = kinds.get(type(ty))
+            if k is not None and isinstance(argmap.get(name), sv.SUnion):
+                argmap[name] = self.expect(argmap[name], k, path, node, what="argtype")
         ctx_pre = Ctx(self, path, argmap)
         if c.requires is not None:
             self.oblige(path, f"pre:{c.name}", c.requires(ctx_pre), node)
